@@ -52,6 +52,9 @@ pub enum Fault {
     So(usize),
     /// backtrack limit k through RegexBuilder::backtrack_limit (a fresh Regex is built)
     Builder(usize),
+    /// backtrack limit k through a builder that also sets the other options:
+    /// (k, case_insensitive, delegate size limits set, limit set before the others)
+    BuilderOpts(usize, bool, bool, bool),
 }
 
 impl Fault {
@@ -60,6 +63,7 @@ impl Fault {
             Fault::Ble(k) => json!(["ble", k]),
             Fault::So(d) => json!(["so", d]),
             Fault::Builder(k) => json!(["builder", k]),
+            Fault::BuilderOpts(k, ci, sizes, first) => json!(["builder_opts", k, ci, sizes, first]),
         }
     }
     fn from_json(v: &Value) -> Option<Fault> {
@@ -69,6 +73,7 @@ impl Fault {
             "ble" => Fault::Ble(n),
             "so" => Fault::So(n),
             "builder" => Fault::Builder(n),
+            "builder_opts" => Fault::BuilderOpts(n, a.get(2)?.as_bool()?, a.get(3)?.as_bool()?, a.get(4)?.as_bool()?),
             _ => return None,
         })
     }
@@ -239,6 +244,8 @@ fn judge(fault: &Fault, e: &Exec, u: &Outcome<Res>, n: u64, p: usize, st: &mut C
                 }
             }
         }
+        // judged where it is run (check_case, step 4): the answer depends on the other options
+        Fault::BuilderOpts(..) => {}
         Fault::So(d) => {
             let d = *d;
             match &e.out {
@@ -470,6 +477,64 @@ pub fn check_case(re: &Regex, case: &Case, cap: usize, with_builder: bool, rng: 
                 }
             }
         }
+        // 4. the builder's other options, set before or after the limit, do not disturb it. The
+        // case-insensitive flag changes what the pattern means, so only what does not depend on
+        // the answer is judged: the run used the limit that was set, an abort happened exactly at
+        // the (k+1)-th backtrack, an answer needed at most k.
+        for k in [3usize, 1 << 33] {
+            for combo in 0..8u32 {
+                let (ci, sizes, first) = (combo & 1 != 0, combo & 2 != 0, combo & 4 != 0);
+                let mut b = RegexBuilder::new(&case.pattern);
+                if first {
+                    b.backtrack_limit(k);
+                }
+                if ci {
+                    b.case_insensitive(true);
+                }
+                if sizes {
+                    b.delegate_size_limit(64 << 20);
+                    b.delegate_dfa_size_limit(8 << 20);
+                }
+                if !first {
+                    b.backtrack_limit(k);
+                }
+                let Some(re3) = std::panic::catch_unwind(std::panic::AssertUnwindSafe(|| b.build())).ok().and_then(|r| r.ok()) else {
+                    continue;
+                };
+                let f = Fault::BuilderOpts(k, ci, sizes, first);
+                let e = exec(&re3, case, LimitOverride::default(), false);
+                st.runs += 1;
+                st.builder_configured += 1;
+                let Some(rs) = e.stats else { continue };
+                if rs.backtrack_limit != k {
+                    return found(
+                        "builder-limit-not-applied",
+                        format!(
+                            "RegexBuilder with backtrack_limit({}) (case_insensitive {}, delegate size limits {}, limit set {}) but the run used limit {}",
+                            k, ci, if sizes { "set" } else { "default" }, if first { "first" } else { "last" }, rs.backtrack_limit
+                        ),
+                        Some(f),
+                    );
+                }
+                match &e.out {
+                    Outcome::Err(ErrKind::BacktrackLimit) if rs.backtracks != k as u64 + 1 => {
+                        return found(
+                            "ble-illegitimate",
+                            format!("BacktrackLimitExceeded under builder limit {} after {} backtracks (hook count); must be exactly {}", k, rs.backtracks, k as u64 + 1),
+                            Some(f),
+                        );
+                    }
+                    Outcome::Ok(_) if rs.backtracks > k as u64 => {
+                        return found(
+                            "limit-not-enforced",
+                            format!("an answer under builder limit {} after {} backtracks (hook count)", k, rs.backtracks),
+                            Some(f),
+                        );
+                    }
+                    _ => {}
+                }
+            }
+        }
     }
     None
 }
@@ -482,7 +547,7 @@ fn class_of(pattern: &str, text: &str, pos: usize, api: Api, fault: &Option<Faul
     let case = Case { pattern: pattern.to_string(), text: text.to_string(), pos, api };
     let mut st = CaseStats::default();
     let mut rng = Rng::new(7);
-    let with_builder = matches!(fault, Some(Fault::Builder(_)));
+    let with_builder = matches!(fault, Some(Fault::Builder(_)) | Some(Fault::BuilderOpts(..)));
     check_case(&re, &case, 64, with_builder, &mut rng, &mut st).map(|f| (f.class, f.detail, f.fault))
 }
 
